@@ -112,6 +112,9 @@ def gen_cases(tier: str, seed: int):
             a, b = r.sample(grp, 2)
             yield core.jsonable({"kind": "collide", "style": style, "first": a, "then": b, "how": r.choice(["same_stmt", "next_stmt", "other_conn"])})
             continue
+        if x < 0.275 and x >= 0.26:
+            yield {"kind": "text_again", "style": style, "vals": [_rand_string(r), _rand_string(r)]}
+            continue
         if x < 0.26 and x >= 0.22:
             yield {"kind": "in_function", "style": style, "fn": r.randrange(len(FUNCTIONS))}
             continue
@@ -216,6 +219,8 @@ def run_case(case: dict, env: core.Env) -> None:
         return _run_collide(case, env)
     if case["kind"] == "in_function":
         return _run_in_function(case, env)
+    if case["kind"] == "text_again":
+        return _run_text_again(case, env)
     if case["kind"] == "dict_reuse":
         return _run_dict_reuse(case, env)
     style, pos, t, v, v2 = case["style"], case["pos"], case["type"], case["val"], case["val2"]
@@ -446,6 +451,38 @@ def _run_executemany(case: dict, env: core.Env) -> None:
         env.witness(f"C08/executemany/wrong-rows/{style}", f"{dict(a)} expected {dict(want)}")
     if len(case["vals"]) >= 2:
         env.nontrivial(("em", style, case["vals"]))
+
+
+def _run_text_again(case: dict, env: core.Env) -> None:
+    """The same statement text on the same cursor, with other parameter values and after a session variable changed: every
+    execution binds its own parameters and sees the variables as they are then."""
+    style = case["style"]
+    fs, conn, tw = _state[style]
+    cur = conn.cursor()
+    a, b = case["vals"]
+    env.count("cmp_roundtrip")
+    sql = f"SELECT {ph(style, 0)} AS P, $tv AS V, {ph(style, 1)} AS N"
+    try:
+        cur.execute("SET tv = 'first'")
+        r1 = cur.execute(sql, bind(style, [a, 1])).fetchall()
+        cur.execute("SET tv = 'second'")
+        r2 = cur.execute(sql, bind(style, [b, 2])).fetchall()
+        cur.executemany("INSERT INTO KEEP (ID) SELECT " + ph(style, 0) + " WHERE $tv = 'second'", [bind(style, [91]), bind(style, [92])]) if style != "pyformat_dict" else None
+        cur.execute("UNSET tv")
+    except Exception as e:  # noqa: BLE001
+        env.witness(f"C08/same-text-again/rejected/{style}/{type(e).__name__}", f"{sql}: {e}"[:300])
+        return
+    if [tuple(x) for x in r1] != [(a, "first", 1)] or [tuple(x) for x in r2] != [(b, "second", 2)]:
+        env.witness(f"C08/same-text-again/stale-values/{'server-side' if style == 'qmark' else 'client-side'}", f"{sql}: first {r1} then {r2}; expected {[(a, 'first', 1)]} then {[(b, 'second', 2)]}")
+    o = core.run_stmt(cur, sql, bind(style, [a, 3]))
+    if o["ok"]:
+        env.witness(f"C08/same-text-again/unset-variable-still-answered/{'server-side' if style == 'qmark' else 'client-side'}", f"{sql} after UNSET tv -> {o['rows']}")
+    if style != "pyformat_dict":
+        n = conn.cursor().execute("SELECT COUNT(*) FROM KEEP WHERE ID IN (91, 92)").fetchall()
+        if n != [(2,)]:
+            env.witness(f"C08/same-text-again/executemany-rows/{style}", f"KEEP holds {n} of the two rows")
+        conn.cursor().execute("DELETE FROM KEEP WHERE ID IN (91, 92)")
+    env.nontrivial(("text_again", style, a, b))
 
 
 def _run_in_function(case: dict, env: core.Env) -> None:
